@@ -200,8 +200,9 @@ def _is_err(v):
 
 
 class Evaluator:
-    def __init__(self, prog, inline_prefixes=("svgdx::",), max_depth=4, opaque=(), presets=None, type_alias=None, watch=(), name_case=None, transparent=(), iflet=None, absent=(), present=None, script=None, numbered=(), unroll=0):
+    def __init__(self, prog, inline_prefixes=("svgdx::",), max_depth=4, opaque=(), presets=None, type_alias=None, watch=(), name_case=None, transparent=(), iflet=None, absent=(), present=None, script=None, numbered=(), unroll=0, keep_early_none=False):
         self.prog = prog
+        self.keep_early_none = keep_early_none  # an undecided early `return None` is an alternative result, not a guard
         self.script = script or {}  # method -> {"tick": method, "values": [...]}: the value returned depends on how often `tick` was called
         self.numbered = set(numbered)  # opaque functions whose successive calls are distinct values (parsers consuming input)
         self.unroll = unroll  # `loop`s are executed up to this many times (0: a loop's value is unknown)
@@ -254,8 +255,11 @@ class Evaluator:
             ret = r.value
         finally:
             self._stack.pop()
+            if st.get("cond_bumps"):
+                self.cond_depth -= st["cond_bumps"]
         # early `return None` / `return Ok(None)` exits are guards (value absent), not alternative results
-        st["early"] = [v for v in st["early"] if not (v is not None and not is_form(v) and v[0] == "none")]
+        if not self.keep_early_none:
+            st["early"] = [v for v in st["early"] if not (v is not None and not is_form(v) and v[0] == "none")]
         if st["early"]:
             ret = ("early", st["early"] + [ret])
         return {"ret": ret, "self": st["self_after"], "early": st["early"]}
@@ -570,6 +574,10 @@ class Evaluator:
                 r = rt or re_
                 if not _is_err(r.value):
                     st["early"].append(r.value)
+                    # what follows in this function happens only when the undecided test let it: watched calls made from
+                    # here on are conditional (until the function returns)
+                    self.cond_depth = getattr(self, "cond_depth", 0) + 1
+                    st["cond_bumps"] = st.get("cond_bumps", 0) + 1
                 live = env_e if rt is not None else env_t
                 for name in list(env):
                     env[name] = live.get(name)
